@@ -100,9 +100,11 @@ def generate(seed: int, config: str, tier: str) -> Dict[str, Any]:
         wraps.append({"mode": mode, "depths": sorted({rng.randrange(4) for _ in range(rng.randint(1, 3))})})
     ctxdoc = {"a": rng.choice([1, 2, "a"]), "b": [2, 3], "x": {"y": 10}} if rng.random() < 0.35 else None
     opts = gen_query.default_opts(rng)
-    opts["p_ctx"] = 0.25 if ctxdoc is not None else 0.0
+    opts["p_ctx"] = 0.35 if ctxdoc is not None else 0.0
     if ctxdoc is not None:
         opts["p_ext"] = max(opts["p_ext"], 0.15)
+        opts["max_filter_depth"] = max(opts["max_filter_depth"], 2)
+        opts["p_filter"] = max(opts["p_filter"], 0.3)
     if rng.random() < 0.15:
         opts["p_trip"] = 0.2  # filters that die with JSONPathTypeError at evaluation time (jpsim/tripwire.py)
     queries: List[str] = []
